@@ -127,11 +127,23 @@ INVARIANT AskedOnce
 INVARIANT CalculatedNeedsStencil
 INVARIANT ValueIsFunctionOfPoint
 INVARIANT InterpolantProperties
+INVARIANT InterpolantReadsItsStencil
 ACTION_CONSTRAINT Emit
 """
 
 
+SPEC_MUTANTS = [
+    ("cell-forgets-sampled-nodes", "    /\\ sampled' = sampled \\cup new", "    /\\ sampled' = sampled"),
+    ("cell-never-fixed", "    /\\ calculated' = calculated \\cup {c}", "    /\\ calculated' = calculated"),
+    ("stencil-too-narrow", "St(i) == (i - 1)..(i + 2)", "St(i) == i..(i + 1)"),
+    ("one-sided-slope", "H11(q) * (F(c + 2) - F(c))", "H11(q) * 2 * (F(c + 2) - F(c + 1))"),
+]
+
+
 def run(v):
+    if v.tier == "thorough":
+        from . import specmut
+        v.notes["spec_mutants"] = specmut.audit("Caching", CFG.format(dim=1, n=4, depth=3, poly=1).replace("ACTION_CONSTRAINT Emit\n", ""), SPEC_MUTANTS)
     plan = {"quick": [(1, 4, 3, 1), (1, 4, 2, 2), (1, 3, 2, 4), (2, 3, 2, 1), (3, 2, 2, 1)],
             "thorough": [(1, 4, 4, 1), (1, 4, 3, 2), (1, 4, 3, 3), (1, 4, 3, 4), (2, 3, 3, 1), (2, 3, 2, 3), (3, 3, 2, 1), (3, 2, 3, 4)]}[v.tier]
     for dim, n, depth, poly in plan:
